@@ -8,7 +8,7 @@
    dropping to at most half by moving it back past the last value of the low
    side (groups of equal binary32 coordinate; zero-weight groups count). *)
 From Coupe Require Import Lib.Prelude Lib.SFloat Model.Rcb Gen.RcbGen
-  Proofs.SFOrder Proofs.RcbProofs Proofs.RcbInst Proofs.RcbBalance Proofs.F32Flocq Proofs.RcbBalInst Proofs.RcbRegress.
+  Proofs.SFOrder Proofs.RcbProofs Proofs.RcbInst Proofs.RcbBalance Proofs.F32Flocq Proofs.RcbBox Proofs.RcbBalInst Proofs.RcbRegress.
 From Coq Require Import Floats.SpecFloat Permutation.
 Open Scope Z_scope.
 
@@ -21,20 +21,20 @@ Definition rcb_impl := rcb rcb_variant.
 Theorem C04_variant_is_head : rcb_variant = head_variant.
 Proof. exact eq_refl. Qed.
 
-(* For every tolerance, schedule and fuel, on finite coordinates and
-   non-negative weights, if the call returns Ok the ids with the binary32
-   coordinates and the weights form a BalTree.  The two facts about the
-   midpoint `min/2 + max/2` that the loop invariant needs are proved for
-   SpecFloat with Flocq (C04_mid_spec; real-number axioms of the standard
-   library).  box_ok32 (the root box, f64 min/max then `as f32`, has finite
-   bounds enclosing the binary32 coordinates) is decidable and evaluated on
-   every generated case. *)
+(* For every tolerance, schedule and fuel: D coordinates per point, each a
+   finite f64 value (canonical binary64) whose binary32 image is finite
+   ([coords_in_f32_range]), non-negative weights -- if the call returns Ok the
+   ids with the binary32 coordinates and the weights form a BalTree.  The two
+   facts about the midpoint `min/2 + max/2` (C04_mid_spec) and the enclosing
+   root box (box_ok32_holds: monotone f64 -> f32 cast) are proved for SpecFloat
+   with Flocq (real-number axioms of the standard library); the run glue still
+   evaluates box_ok32 on every case as a cross-check. *)
 Theorem C04_rcb_split_balanced : forall fuel sched D k tol pts ws p0 p,
-  contract pts ws -> box_ok32 D pts ws = true ->
+  Forall (fun pt => length pt = D) pts -> contract_range pts ws ->
   rcb_impl fuel sched D k tol pts ws p0 = Ok p ->
   exists t, Permutation t (combine (combine (to32 pts) ws) p)
             /\ BalTree spec_float flt (tol_test tol) D k 0%nat t.
-Proof. exact rcb_split_balanced. Qed.
+Proof. exact rcb_split_balanced_contract. Qed.
 Print Assumptions C04_rcb_split_balanced.
 
 (* the midpoint of two finite binary32 values is finite, and when it is not
@@ -109,5 +109,5 @@ Example C04_nonvacuous :
   /\ box_ok32 2 ex_pts4 [1; 1; 1; 1; 1; 1] = true
   /\ check_balance32 2 1 tol005 ex_pts4 [1; 1; 1; 1; 1; 1] [0; 0; 0; 1; 1; 1]%N = true.
 Proof. repeat split; vm_compute; reflexivity. Qed.
-Example C04_nonvacuous_contract : contract ex_pts4 [1; 1; 1; 1; 1; 1].
+Example C04_nonvacuous_contract : contract_range ex_pts4 [1; 1; 1; 1; 1; 1].
 Proof. split; repeat constructor; lia. Qed.
